@@ -26,6 +26,7 @@ func runC08(r *Run, verifDir string) {
 	c08K3Recover(r)
 	c08K4OneResponse(r)
 	c08K5InvalidMessage(r)
+	c08K5Sentinels(r)
 	c.k6Releasable()
 	r.Rule("C08.K10", "the read and write loops tear the connection down on every stream-error exit", 2)
 	c.kLoopErrorExits("C08.K10")
@@ -1413,5 +1414,100 @@ func c08K3RecoveredError(r *Run, rule string) {
 	}
 	if n == 0 {
 		r.Unk(rule, "kmipserver/recovered-error", token.NoPos, "no recover() closure calling handleBatchItemError found")
+	}
+}
+
+// c08K5Sentinels: handleConn classifies a receive error as "client closed" (errors.Is(err, io.EOF)) before it tests for
+// an encoding error. The classification is only right when no encoding error matches io.EOF: no ttlv.Errorf / fmt.Errorf
+// call in package ttlv wraps (%w) one of the io end-of-stream sentinels — unless handleConn tests IsErrEncoding first.
+func c08K5Sentinels(r *Run) {
+	p := r.P
+	key := "ttlv/encoding-errors-do-not-match-EOF"
+	hc := p.Func("kmipserver", "Server", "handleConn")
+	// order of the two tests in handleConn
+	encFirst := false
+	if hc != nil {
+		var eofTest, encTest *ssa.Call
+		allInstrs(hc, func(in ssa.Instruction) {
+			c, ok := in.(*ssa.Call)
+			if !ok {
+				return
+			}
+			id := callID(&c.Call)
+			if id.is("errors", "", "Is") && len(c.Call.Args) == 2 {
+				if u, ok := c.Call.Args[1].(*ssa.UnOp); ok {
+					if g, ok := u.X.(*ssa.Global); ok && g.Pkg != nil && g.Pkg.Pkg.Path() == "io" && g.Name() == "EOF" {
+						eofTest = c
+					}
+				}
+			}
+			if id.is(ttlvPath, "", "IsErrEncoding") {
+				encTest = c
+			}
+		})
+		if eofTest != nil && encTest != nil {
+			// the EOF test is reached only on the not-an-encoding-error edge
+			for _, dc := range dominatingConds(eofTest.Block()) {
+				if dc.cond == ssa.Value(encTest) && !dc.outcome {
+					encFirst = true
+				}
+			}
+		}
+		if eofTest == nil {
+			encFirst = true // no EOF classification at all
+		}
+	}
+	bad := token.NoPos
+	n := 0
+	for _, fn := range p.OwnFuncs() {
+		if idOf(fn).pkg != ttlvPath {
+			continue
+		}
+		allInstrs(fn, func(in ssa.Instruction) {
+			c, ok := in.(*ssa.Call)
+			if !ok {
+				return
+			}
+			id := callID(&c.Call)
+			if !(id.is(ttlvPath, "", "Errorf") || id.is("fmt", "", "Errorf")) || len(c.Call.Args) < 2 {
+				return
+			}
+			k, ok := c.Call.Args[0].(*ssa.Const)
+			if !ok || !isStringConst(k) || !strings.Contains(k.Value.ExactString(), "%w") {
+				return
+			}
+			n++
+			// variadic arguments: the backing array's stores
+			if sl, ok := c.Call.Args[1].(*ssa.Slice); ok {
+				if al, ok := sl.X.(*ssa.Alloc); ok {
+					for _, ref := range *al.Referrers() {
+						if ia, ok := ref.(*ssa.IndexAddr); ok {
+							for _, r2 := range *ia.Referrers() {
+								if st, ok := r2.(*ssa.Store); ok {
+									v := st.Val
+									if mi, ok := v.(*ssa.MakeInterface); ok {
+										v = mi.X
+									}
+									if ci, ok := v.(*ssa.ChangeInterface); ok {
+										v = ci.X
+									}
+									if u, ok := v.(*ssa.UnOp); ok {
+										if g, ok := u.X.(*ssa.Global); ok && g.Pkg != nil && g.Pkg.Pkg.Path() == "io" && (g.Name() == "EOF" || g.Name() == "ErrUnexpectedEOF" || g.Name() == "ErrClosedPipe") {
+											bad = c.Pos()
+										}
+									}
+								}
+							}
+						}
+					}
+				}
+			}
+		})
+	}
+	switch {
+	case bad.IsValid() && !encFirst:
+		r.Bad("C08.K5", key, bad, "an encoding error of package ttlv wraps an io end-of-stream sentinel (%%w): handleConn tests errors.Is(err, io.EOF) before IsErrEncoding, so a framed request that ends before a mandatory field is taken for a clean client close and dropped without the single invalid-message response")
+	default:
+		r.OK("C08.K5", key, token.NoPos, "no encoding error wraps an io end-of-stream sentinel (%d wrapping Errorf call(s) inspected), or IsErrEncoding is tested first", n)
 	}
 }
